@@ -165,8 +165,12 @@ def pyopenssl_control_factory(ident):
     return ctx
 
 
+served_modern = {}
+
+
 def probe_server(ctx, label, port, controls, ciphers_list, kind):
     """controls: dict version name -> bool (old version negotiable against the matching control)."""
+    served_modern.setdefault(label, False)
     for vname, v in VERSIONS:
         for ciphers in ciphers_list:
             cc = permissive_client(v, v, ciphers)
@@ -181,11 +185,14 @@ def probe_server(ctx, label, port, controls, ciphers_list, kind):
                 else:
                     ctx.count("outcome", f"refused:{label}:{vname}")
             else:
+                # not part of the property (it only forbids service *below* 1.2); this is the control that
+                # the server under test works at all, so that its refusals of old versions mean something
                 if res[0] == "ok" and res[1] == vname:
                     ctx.count("monitor", "new_version_ok")
                     ctx.count("outcome", f"served:{label}:{vname}")
+                    served_modern[label] = True
                 else:
-                    ctx.violation(f"new-version-refused:context={label}:version={vname}", f"{label} refused a {vname} handshake: {res[1]}", wit)
+                    ctx.undecided(f"modern-handshake-refused:{vname}:ciphers={ciphers}:{res[1]}")
             ctx.case(("server", label, vname, ciphers, res[0]), True, sample=wit)
 
 
@@ -437,6 +444,9 @@ def run(ctx):
                     ctx.inconclusive_because(f"client context {mode} cannot even connect to a modern peer: {res}")
                 else:
                     ctx.count("monitor", "new_version_ok")
+        for label, ok in served_modern.items():
+            if not ok:
+                ctx.inconclusive_because(f"{label} completed no TLS 1.2/1.3 handshake at all: its refusals of older versions prove nothing")
     finally:
         for p in leaked:
             with contextlib.suppress(OSError):
